@@ -16,6 +16,8 @@ def gen_cases(ctx):
             cases.append(("corpus:" + f, enc.text_nums(c["text"]), None))
     for t in lexgen.exhaustive_texts(lexgen.ALPHA14, 5 if ctx.thorough() else 4):
         cases.append(("exhaustive", t, None))
+    for t in lexgen.lookalike_texts():
+        cases.append(("lookalike", t, None))
     nrand = 200000 if ctx.thorough() else 20000
     for _ in range(nrand):
         cases.append(("random", lexgen.random_text(ctx.rng, 60), None))
